@@ -139,6 +139,9 @@ def strategy_impl(draw, tier):
         "boundary": draw(st.sampled_from(M.RULES)), "op": draw(st.sampled_from(["diff", "interp", "min", "max", "cumsum"])),
         # a second model run in the same interpreter: same names, other metric values, used first
         "decoy_first": draw(st.booleans()),
+        # a registry built in stages: these variables are registered with set_metrics *after* a first round of lookups on the
+        # same Grid (the second round must answer from the registry as it then is)
+        "late": sorted(e["name"] for r in registry for e in r["vars"] if draw(st.integers(0, 3)) == 0) if draw(st.booleans()) else [],
         # masks and counters are data too: the metric is a property of the grid, whatever the type of the array it is asked for
         "data_dtype": draw(st.sampled_from(["float64", "float64", "float64", "float32", "int32", "int16", "bool"])),
     }
@@ -320,10 +323,16 @@ def check(case, ctx):
     apos = case["apos"]
     ds = build.make_dataset(axes, [("t", 2)])
     metrics_arg = {}
+    late = set(case.get("late") or [])
+    late_calls = []
     for r in case["registry"]:
         for e in r["vars"]:
             ds[e["name"]] = xr.DataArray(metric_array(e), dims=[gen.dim_name(a, p) for a, p in zip(on_axes(e, r["axes"]), e["pos"])])
-        metrics_arg[tuple(r["axes"])] = [e["name"] for e in r["vars"]]
+        early = [e["name"] for e in r["vars"] if e["name"] not in late]
+        if early:
+            metrics_arg[tuple(r["axes"])] = early
+        if len(early) < len(r["vars"]):
+            late_calls.append((tuple(r["axes"]), [e["name"] for e in r["vars"] if e["name"] in late]))
     grid = must_return("Grid construction", build.make_grid, ds, axes, metrics=metrics_arg, boundary=case["boundary"])
     vals = np.asarray(case["values"], dtype=np.float64).copy()
     if case.get("data_dtype") == "bool":
@@ -349,6 +358,29 @@ def check(case, ctx):
             pass
     spelled = req[0] if case["req_spelling"] == "str" else (tuple(req) if case["req_spelling"] == "tuple" else list(req))
 
+    if late_calls:
+        # first round, on the registry as constructed: same validity predicate, then the remaining variables are registered
+        early_reg = [dict(r, vars=[e for e in r["vars"] if e["name"] not in late]) for r in case["registry"]]
+        early_reg = [r for r in early_reg if r["vars"]]
+        acc0 = acceptable_metrics(early_reg, req, apos, by)[0]
+        with warnings.catch_warnings():
+            warnings.simplefilter("ignore")
+            try:
+                got0 = grid.get_metric(da_full, spelled)
+            except Exception:  # noqa: BLE001
+                got0 = None
+            for call in (lambda: grid.integrate(da_full, list(req)), lambda: grid.average(da_full, list(req))):
+                try:
+                    call()
+                except Exception:  # noqa: BLE001 - only there to leave traces, if any
+                    pass
+        if acc0 and got0 is None:
+            raise Violation("get_metric raised although an acceptable metric exists (registry before the late registrations)", req=req, apos=apos)
+        if got0 is not None and (not acc0 or not any(matches(got0, c) for c in acc0)):
+            raise Violation("metric returned is not an acceptable one (registry before the late registrations)", req=req, apos=apos,
+                            late=sorted(late), registry=summary(case))
+        for key, names_ in late_calls:
+            must_return("Grid.set_metrics", grid.set_metrics, key, names_)
     acc, needs_interp, kind = acceptable_metrics(case["registry"], req, apos, by)
     with warnings.catch_warnings(record=True) as wlist:
         warnings.simplefilter("always")
@@ -358,7 +390,7 @@ def check(case, ctx):
         except Exception as e:  # noqa: BLE001
             got, raised = None, e
     user_warn = [w for w in wlist if "interpolated" in str(w.message)]
-    classes = [f"kind:{kind}", f"nreq:{len(req)}", f"naxes:{len(names)}", f"spell:{case['req_spelling']}"]
+    classes = [f"kind:{kind}", f"nreq:{len(req)}", f"naxes:{len(names)}", f"spell:{case['req_spelling']}"] + (["registry-built-in-stages"] if late_calls else [])
     if not acc:
         if got is not None:
             raise Violation("get_metric returned a metric although nothing acceptable is registered", req=req, registry=summary(case))
